@@ -63,10 +63,21 @@ inductive Kind where
   | other
 deriving Repr, DecidableEq
 
+/-- the property's classification of the commands -/
+def kindOf : Cmd → Kind
+  | .select _ => .select
+  | .close | .unselect => .unselect
+  | .store false .. | .fetch false .. | .search false .. => .quiet
+  | .search true .. => .uidSearch
+  | _ => .other
+
 /-- the view of the connection after the response to one command -/
 def afterResp (k : Kind) (okStatus : Bool) (v : View) (evs : List Ev) : Except String View :=
   match k with
-  | .select => if okStatus then applyEvs false true [] evs else .ok []
+  | .select =>
+    match applyEvs false true [] evs with
+    | .error x => .error x
+    | .ok v' => .ok (if okStatus then v' else [])
   | .unselect =>
     match applyEvs false true v evs with
     | .error x => .error x
@@ -74,6 +85,16 @@ def afterResp (k : Kind) (okStatus : Bool) (v : View) (evs : List Ev) : Except S
   | .quiet => applyEvs true true v evs
   | .uidSearch => applyEvs false false v evs
   | .other => applyEvs false true v evs
+
+/-- the view of the connection after one command of a history. A command the harness did not send
+    (status `skip`: the connection sits in IDLE and the command is not DONE, or DONE without IDLE)
+    changes nothing; a connection that crashed is a failure in itself -/
+def stepView (k : Kind) (r : Resp) (v : View) : Except String View :=
+  match r.status with
+  | .skip => .ok v
+  | .crash => .error "connection-crashed"
+  | .ok => afterResp k true v r.evs
+  | _ => afterResp k false v r.evs
 
 /-- clause (4) at a synchronisation point: every slot is labelled and the labels are the actual
     UID list -/
